@@ -199,6 +199,7 @@ func runC27() {
 	nflip := h.ArgInt("--flips", 60)              // quick: random covered offsets per signature
 	maxExh := h.ArgInt("--exhaustive", 61440)     // thorough: files up to this size get every covered offset
 	cpuBudget := float64(h.ArgInt("--cpu", 2400)) // thorough: CPU seconds for stride-sampled (large) documents
+	maxStride := h.ArgInt("--maxstride", 12000)   // thorough: at most this many offsets per signature of a large document
 	var edits []edit
 	if err := h.EachLine(h.Arg("--edits"), func(l []byte) error {
 		var e edit
@@ -305,6 +306,9 @@ func runC27() {
 				}
 			default:
 				n := int(cpuBudget / float64(nLarge) / (cost[d.ID] + 0.002))
+				if n > maxStride {
+					n = maxStride
+				}
 				if n > ncov {
 					n = ncov
 				}
